@@ -576,3 +576,87 @@ Theorem tree_clades_laminar : forall acc t,
   (mdisjoint a b \/ msubset a b \/ msubset b a).
 Proof. exact clades_laminar. Qed.
 Print Assumptions tree_clades_laminar.
+
+(* ---------------------------------------------------------------------------------------------- *)
+(* Object level (wave 7): Bipartition objects as store cells (Model/C01ObjModel.v).
+   oheap = (store: cell -> attributes, next unused cell, node id -> cell of that node's Edge._bipartition);
+   otree = heap, structure, rooting flag, Tree.bipartition_encoding (None or a list of cells), and the lists
+   earlier encodings returned to the caller (ot_saved, oldest first).  obj_encode su cb ss mut is
+   encode_bipartitions / update_bipartitions with its four keywords transcribed as to which object is created,
+   bound to an edge, written in place and returned; obj_edit is any operation that changes structure and
+   rooting and is not asked to update the bipartitions; obj_step runs one of them.
+   owf s: every cell referred to by an edge, by the stored list or by a saved list, and every allocated cell,
+   is below the allocation counter (holds of the initial state and is preserved: owf_init / owf_step).   *)
+From DV Require Import Model.C01GenPrims Model.C01ObjModel Proofs.C01Obj.
+
+(* every encoding creates its objects: the objects of the new encoding did not exist before, no edge, no
+   stored list and no list returned earlier referred to them; every retained edge of the encoded tree is bound
+   to one of them; every object that existed keeps its attributes; edges of nodes that are not in the
+   encoded tree keep their binding *)
+Theorem encoding_creates_fresh_bipartition_objects : forall su cb ss mut acc s,
+  owf s ->
+  exists cells,
+    ot_saved (obj_encode su cb ss mut acc s) = ot_saved s ++ [cells] /\
+    ot_stored (obj_encode su cb ss mut acc s) = (if ss then None else Some cells) /\
+    (forall c, In c cells ->
+       st_get (oh_store (ot_heap s)) c = None /\
+       (forall k, oh_slot (ot_heap s) k <> Some c) /\
+       (forall l, In l (ot_saved s) -> ~ In c l) /\
+       (forall l, ot_stored s = Some l -> ~ In c l)) /\
+    (forall e, In e (r_edges (encode_f su cb acc (ot_rooted s) (ot_tree s))) ->
+       exists c, oh_slot (ot_heap (obj_encode su cb ss mut acc s)) (fst e) = Some c /\ In c cells) /\
+    (forall c b, st_get (oh_store (ot_heap s)) c = Some b ->
+       st_get (oh_store (ot_heap (obj_encode su cb ss mut acc s))) c = Some b) /\
+    (forall k, ~ In k (map fst (r_edges (encode_f su cb acc (ot_rooted s) (ot_tree s)))) ->
+       oh_slot (ot_heap (obj_encode su cb ss mut acc s)) k = oh_slot (ot_heap s) k).
+Proof. exact encoding_creates_fresh_objects_l. Qed.
+Print Assumptions encoding_creates_fresh_bipartition_objects.
+
+Theorem object_invariant_holds : forall acc rooted t steps,
+  owf (fold_left (obj_step acc) steps (ot_init rooted t)).
+Proof. intros. apply owf_steps, owf_init. Qed.
+Print Assumptions object_invariant_holds.
+
+(* an encoding returned earlier keeps its objects and their masks (all attributes) under EVERY later history
+   of encodings (any keywords) and editing operations on the tree *)
+Theorem saved_encoding_keeps_its_masks : forall acc rooted t before after k l,
+  let s1 := fold_left (obj_step acc) before (ot_init rooted t) in
+  let s2 := fold_left (obj_step acc) after s1 in
+  nth_error (ot_saved s1) k = Some l ->
+  nth_error (ot_saved s2) k = Some l /\
+  map (deref (ot_heap s2)) l = map (deref (ot_heap s1)) l.
+Proof. exact saved_encoding_keeps_its_masks_l. Qed.
+Print Assumptions saved_encoding_keeps_its_masks.
+
+(* no Bipartition object is shared between two encodings of a history *)
+Theorem no_bipartition_object_shared : forall acc rooted t steps i j li lj,
+  let s := fold_left (obj_step acc) steps (ot_init rooted t) in
+  i <> j -> nth_error (ot_saved s) i = Some li -> nth_error (ot_saved s) j = Some lj ->
+  forall c, In c li -> ~ In c lj.
+Proof. exact no_bipartition_object_shared_l. Qed.
+Print Assumptions no_bipartition_object_shared.
+
+(* the object level refines the value level: the new objects, in order, carry exactly the (leafset, split)
+   pairs and the rooting flag of the value-level encoding encode_f (of which the theorems above speak), and
+   the retained edges are bound to them in tree_edges order - with or without suppress_storage *)
+Theorem object_level_refines_value_level : forall su cb ss mut acc s,
+  let s' := obj_encode su cb ss mut acc s in
+  let R := encode_f su cb acc (ot_rooted s) (ot_tree s) in
+  NoDup (map fst (r_edges R)) ->
+  exists cells,
+    ot_saved s' = ot_saved s ++ [cells] /\
+    cells = cells_from (oh_next (ot_heap s)) (length (r_edges R)) /\
+    map (fun e => oh_slot (ot_heap s') (fst e)) (r_edges R) = map Some cells /\
+    map (fun c => option_map (fun b => (b_leafset b, b_split b, b_rooted b)) (st_get (oh_store (ot_heap s')) c)) cells
+    = map (fun e => Some (Some (fst (snd e)), Some (snd (snd e)), r_rooted R)) (r_edges R).
+Proof. exact obj_encode_contents. Qed.
+Print Assumptions object_level_refines_value_level.
+
+(* the statement bites: recycling the object already bound to the edge changes a saved encoding *)
+Theorem recycling_variant_refuted :
+  let s1 := obj_encode_recycle true true false false (fun x => x) (ot_init (Some true) demo_tree1) in
+  let s2 := obj_encode_recycle true true false false (fun x => x) (obj_edit demo_tree2 (Some true) s1) in
+  exists l, nth_error (ot_saved s1) 0 = Some l /\ nth_error (ot_saved s2) 0 = Some l /\
+            map (deref (ot_heap s2)) l <> map (deref (ot_heap s1)) l.
+Proof. exact recycling_variant_refuted_l. Qed.
+Print Assumptions recycling_variant_refuted.
